@@ -169,12 +169,14 @@ def replay(scn):
             # scalar and ndarray operands: NumPy on .values, axes unchanged
             if i["fam"] == "1d" or vi == 0:
                 for name, pyop, ufunc in OPS:
-                    for form in ("scalar_right", "scalar_left", "ndarray_right"):
+                    for form, other in (("scalar_right", 3), ("scalar_left", 3), ("scalar_right", 1.5), ("scalar_left", 1.5), ("scalar_left", 0.25),
+                                        ("scalar_left", np.float32(2.5)), ("ndarray_right", None)):
                         if form == "ndarray_right" and a.ndim == 0:
                             continue
                         calls += 1
                         what = None
-                        other = 3 if form != "ndarray_right" else (np.arange(a.values.size).reshape(a.values.shape) + 2)
+                        if form == "ndarray_right":
+                            other = np.arange(a.values.size).reshape(a.values.shape) + 2
                         try:
                             res = pyop(other, a) if form == "scalar_left" else pyop(a, other)
                             expected = ufunc(other, a.values) if form == "scalar_left" else ufunc(a.values, other)
@@ -194,7 +196,7 @@ def replay(scn):
                                 elif not _same(res.values, expected):
                                     what = "values: expected %s got %s" % (expected.tolist(), res.values.tolist())
                         if what:
-                            viol.append(dict(what=what, sig="binop/%s/%s/%s/ndim=%d" % (name, form, lk + "/" + dts, a.ndim),
+                            viol.append(dict(what=what, sig="binop/%s/%s/%s/ndim=%d/other=%s" % (name, form, lk + "/" + dts, a.ndim, type(other).__name__ + (":%s" % other if np.ndim(other) == 0 else "")),
                                              variant="%s %s" % (form, name)))
     finally:
         np.seterr(**old)
